@@ -12,6 +12,13 @@ def tsv(path):
     return rows
 results = tsv(root + '/RESULTS.tsv')
 missed = tsv(root + '/FIRST_MISSED.tsv')
+# scratch-worktree verdicts (tools/try_prop_wt.py) of later rounds; a later file overrides an earlier one
+wt = {}
+for f in sorted(glob.glob(root + '/ROUND*_WT.tsv')):
+    for l in open(f).read().splitlines():
+        c = l.split('\t')
+        if len(c) >= 3 and re.match(r'C\d\d-m\d+$', c[0]):
+            wt[c[0]] = c
 table = []
 for d in sorted(glob.glob(root + '/C*-m*')):
     sid = os.path.basename(d)
@@ -24,11 +31,15 @@ for d in sorted(glob.glob(root + '/C*-m*')):
     demos = sorted(os.path.relpath(p, d) for p in glob.glob(d + '/demo/**', recursive=True) if os.path.isfile(p))
     r = results.get(sid, ['', '', ''])
     caught = [c for c in (r[2].split(',') if len(r) > 2 and r[2] else []) if c and not c.startswith(' INCONCLUSIVE')]
+    how = 'tools/seed_matrix.sh: git -C /repo apply seeded/%s/patch.diff; ./check %s quick; git -C /repo checkout -- .' % (sid, prop)
+    if sid in wt and (sid not in results or not caught):
+        caught = [c.strip() for c in wt[sid][2].split(',') if c.strip() and c.strip() != 'NOTHING']
+        how = 'tools/try_prop_wt.py %s %s: harness built against a scratch worktree with the change applied, every sub-property of %s at its quick budget (/repo untouched)' % (prop, sid.split('-')[1], wt[sid][1])
     fm = missed.get(sid, ['no'])[0]
     meta = {
         'property': prop, 'title': title, 'files_changed': files, 'needs_to_manifest': needs, 'demonstration': demos,
         'confirmed_by': ['tools/confirm_seed.sh %s %s: demonstration passes on the unchanged tree, fails with the change; go build ./... ok; go test ./... passes with the change (load-related flakes re-run per package)' % (prop, sid.split('-')[1])],
-        'checks_run': ['tools/seed_matrix.sh: git -C /repo apply seeded/%s/patch.diff; ./check %s quick; git -C /repo checkout -- .' % (sid, prop)],
+        'checks_run': [how],
         'caught_by': caught, 'quick_check_exit_code': r[1] if len(r) > 1 else '', 'missed_before_strengthening': fm,
     }
     json.dump(meta, open(d + '/meta.json', 'w'), indent=1)
